@@ -102,6 +102,9 @@ class ActionContext(abc.ABC):
         """
         var_processor = VariableSetProcessor({}, self.var_cache, self.collection_config)
         variable_id, log_str = var_processor.process_variable(name, variable)
+        if variable_id.vid is None:
+            # we have collected the max number of variables, so there is no variable to reference
+            return WatchResult(WATCH_SOURCE_CAPTURE, name, None, "variable limit reached"), {}, log_str
 
         return WatchResult(WATCH_SOURCE_CAPTURE, name, variable_id), var_processor.var_lookup, log_str
 
